@@ -224,6 +224,16 @@ func classify(srv *ogServer, ps *plannedSet, q *query, kind string, got, want *r
 	if dupSignature(ps, q, applicable, true) {
 		return "setop-one-series-per-signature"
 	}
+	if hasOr(q.e) && got.err == "" {
+		// `or` returns a left-hand series in two pieces (the steps with a right-hand partner, the
+		// steps without): explained when the pieces, put together, are the reference's series
+		merged := mergeDuplicates(got)
+		if len(merged.series) < len(got.series) {
+			if k, _ := diffResults(&merged, want); k == "" {
+				return "setop-or-splits-series"
+			}
+		}
+	}
 	// findings of the wider subset that have no defect model: assigned by a syntactic trigger
 	if cls := syntacticTrigger(q); cls != "" {
 		return cls
@@ -752,4 +762,31 @@ func isCmp(op string) bool {
 		return true
 	}
 	return false
+}
+
+func hasOr(e expr) bool {
+	found := false
+	e.walk(func(x expr) {
+		if so, ok := x.(*setExpr); ok && so.op == "or" {
+			found = true
+		}
+	})
+	return found
+}
+
+// mergeDuplicates puts the series of an answer that carry the same label set together.
+func mergeDuplicates(r *result) result {
+	out := result{}
+	idx := map[string]int{}
+	for _, s := range r.series {
+		k := labelsKey(s.labels)
+		if i, ok := idx[k]; ok {
+			out.series[i].points = append(out.series[i].points, s.points...)
+			continue
+		}
+		idx[k] = len(out.series)
+		out.series = append(out.series, rseries{labels: s.labels, points: append([]point{}, s.points...)})
+	}
+	out.canon()
+	return out
 }
